@@ -127,6 +127,20 @@ HOT_FUNCTIONS = frozenset({
 })
 
 
+_FOCUS_CLASS = {}
+
+
+def focus_class(name):
+    """Functions outside HOT_FUNCTIONS fall into 8 classes by a stable hash of their name; a case may declare one class hot
+    too (sched["focus"]), so that every function of the SDK - also one a change introduces - is a pre-emption hot spot in
+    some of the cases."""
+    c = _FOCUS_CLASS.get(name)
+    if c is None:
+        import zlib
+        c = _FOCUS_CLASS[name] = zlib.crc32(name.encode()) % 8
+    return c
+
+
 class DefaultPolicy:
     """Never pre-empt: keep the current thread, else lowest index."""
 
@@ -147,6 +161,7 @@ class Sim:
         self.clock = clock
         self.policy = policy or DefaultPolicy()
         self.trace_lines = trace_lines
+        self.focus = None
         self.sdk_probe = None
         self._probe_raised = set()
         self.sdk_src = sdk_src
@@ -454,7 +469,9 @@ class Sim:
                 return self._line_tracer
             for t in self.threads:
                 if t.state == RUNNABLE and t is not cur:
-                    self.yield_point(cur, "line-hot" if frame.f_code.co_name in HOT_FUNCTIONS else "line")
+                    name = frame.f_code.co_name
+                    hot = name in HOT_FUNCTIONS or (self.focus is not None and focus_class(name) == self.focus)
+                    self.yield_point(cur, "line-hot" if hot else "line")
                     break
         return self._line_tracer
 
